@@ -3,6 +3,7 @@
 mod alpha;
 mod checks;
 mod rec;
+mod refm;
 mod sch;
 mod schemes;
 mod mirror;
@@ -26,6 +27,7 @@ fn dispatch(prop: &str, rec: &mut Rec) {
         "C02" => checks::c02::run(rec),
         "C03" => checks::c03::run(rec),
         "C05" => checks::c05::run(rec),
+        "C10" => checks::c10::run(rec),
         _ => {
             eprintln!("unknown property {}", prop);
             std::process::exit(2)
